@@ -7,6 +7,8 @@ from typing import Optional
 
 import z3
 
+from pyvc import seqs as Q
+
 from . import extract
 from .core import (CLASSES, CONSTS, NONE, SeqV, V, O, K, IntS, BoolS, Spec, VAL, Sym, State, DictPayload,
                    ExcInfo, Obligation, S_bool, S_int, S_none, S_seq, S_str, S_val, Unsupported, fresh,
@@ -55,10 +57,10 @@ class ContractMixin:
             env[name] = a
         rest = flat[n:]
         if vararg is not None:
-            parts = [z3.Unit(box(a, st)) for a in rest]
+            parts = [Q.Unit(st, box(a, st)) for a in rest]
             if star_tail is not None:
                 parts.append(as_seq(self.materialise(star_tail, st), st))
-            t = z3.Empty(SeqV) if not parts else (parts[0] if len(parts) == 1 else z3.Concat(*parts))
+            t = Q.Concat(st, *parts)
             env[vararg] = Sym("seq", t, c.params.get(vararg) or Spec("seq", VAL, True))
         elif rest or star_tail is not None:
             raise Unsupported(f"{label}: too many positionals / star-args for contract binding")
@@ -75,7 +77,7 @@ class ContractMixin:
                 if name in defaults:
                     d, mod = defaults[name]
                     env[name] = self.eval_default(d, mod, st)
-                elif name in c.params and c.qualname.startswith(("method:", "builtins.")):
+                elif name in c.params and c.qualname.startswith(("method:", "builtins.", "local:")):
                     env[name] = S_none()  # optional params of declared-only contracts default to None
                 else:
                     raise Unsupported(f"{label}: missing argument {name}")
@@ -220,8 +222,8 @@ class ContractMixin:
         if self.spec_mode:
             # a spec may mention a contracted *pure* function: its result is the uninterpreted image
             flat = [box(v, st) for k_, v in env.items() if v.kind != "pyobj"]
-            f = uf("specfn:" + c.qualname, *([V] * len(flat)), V)
-            return unbox(c.result, f(*flat) if flat else CONSTS.get("specfn", c.qualname), st)
+            f = uf("fn:" + c.qualname, *([V] * len(flat)), V)
+            return unbox(c.result, f(*flat) if flat else CONSTS.get("fn", c.qualname), st)
         # ghost lets of the callee contract
         for name, expr in c.lets:
             env[name] = self.spec_value(expr, st, env)
@@ -268,10 +270,11 @@ class ContractMixin:
         return res
 
     def fresh_result(self, c, env, st) -> Sym:
-        if c.pure_ and c.kind != "kernel-impure" and getattr(c, "functional", False):
+        if getattr(c, "functional", False):
+            # deterministic pure function of its arguments: the same uninterpreted image in code and spec
             flat = [box(v, st) for v in env.values() if v.kind != "pyobj"]
-            f = uf("res:" + c.qualname, *([V] * len(flat)), V)
-            t = f(*flat)
+            f = uf("fn:" + c.qualname, *([V] * len(flat)), V)
+            t = f(*flat) if flat else CONSTS.get("fn", c.qualname)
             return unbox(c.result, t, st)
         return self.fresh_sym(st, "res_" + c.qualname.split(".")[-1].replace(":", "_"), c.result)
 
@@ -360,7 +363,7 @@ class ContractMixin:
             return self.b_tuple(node, st)
         if clsname in ("set", "frozenset"):
             if not node.args:
-                return Sym("set", z3.Empty(SeqV), Spec("set", VAL))
+                return Sym("set", Q.Empty(), Spec("set", VAL))
             s = self.eval(node.args[0], st)
             if s.kind == "set":
                 return s
@@ -369,7 +372,7 @@ class ContractMixin:
             return Sym("set", d.py.keys, Spec("set", elem_spec(m)))
         if clsname == "dict":
             if not node.args and not node.keywords:
-                return Sym("dict", None, Spec("dict", (VAL, VAL)), DictPayload(z3.Empty(SeqV), z3.K(V, NONE)))
+                return Sym("dict", None, Spec("dict", (VAL, VAL)), DictPayload(Q.Empty(), z3.K(V, NONE)))
             if len(node.args) == 1:
                 s = self.eval(node.args[0], st)
                 if s.kind == "dict":
